@@ -1,6 +1,5 @@
 //! Conformance checks of one concretised behaviour against the real code.
 
-use std::io::Cursor;
 
 use peppi::game::{port_occupancy, Game as GameTrait};
 use peppi::io::slippi;
@@ -233,7 +232,7 @@ impl<'a> Ctx<'a> {
 	/// mode "c04": closed rows against the model (cell placement); "c12": every call against the
 	/// one-shot result for the same bytes, consumed-byte count, monotone row count;
 	/// "c13": the in-progress row view of every closed row against the in-progress columns.
-	pub fn incremental(&self, mode: &str, out: &mut Vec<Viol>) {
+	pub fn incremental(&self, mode: &str, frag: crate::stream::Frag, out: &mut Vec<Viol>) {
 		let cls = shape_class(self.beh);
 		let b = &self.built.bytes;
 		let oneshot = if mode == "c12" {
@@ -247,7 +246,7 @@ impl<'a> Ctx<'a> {
 		} else {
 			None
 		};
-		let mut r = Cursor::new(&b[..]);
+		let mut r = crate::stream::FragReader::new(&b[..], frag);
 		let hdr = guard(|| slippi::de::parse_header(&mut r, None));
 		let raw_len = match hdr {
 			Outcome::Ok(n) => n,
@@ -266,7 +265,7 @@ impl<'a> Ctx<'a> {
 				return;
 			}
 		};
-		let consumed = |pos: u64| pos as usize - self.built.raw_start;
+		let consumed = |pos: usize| pos - self.built.raw_start;
 		if st.bytes_read() != consumed(r.position()) {
 			out.push(viol("inc_bytes_read", &cls, "mismatch", format!("after start: {} vs {}", st.bytes_read(), consumed(r.position()))));
 		}
@@ -345,9 +344,9 @@ impl<'a> Ctx<'a> {
 				use std::io::Read;
 				let mut b1 = [0u8; 1];
 				// skip a duplicated Game End / junk inside the raw element, as the one-shot reader does
-				let pos = r.position() as usize;
+				let pos = r.position();
 				if pos < self.built.raw_end {
-					r.set_position(self.built.raw_end as u64);
+					r.set_position(self.built.raw_end);
 				}
 				r.read_exact(&mut b1)?;
 				if b1[0] == 0x55 {
@@ -367,7 +366,8 @@ impl<'a> Ctx<'a> {
 					if GameTrait::end(&st).as_ref().map(|e| &e.bytes.0) != g.end.as_ref().map(|e| &e.bytes.0) {
 						out.push(viol("inc_vs_oneshot", &cls, "mismatch", "game end differs".into()));
 					}
-					if GameTrait::start(&st) != &g.start {
+					let s1 = GameTrait::start(&st);
+					if s1.bytes != g.start.bytes || format!("{:?}", s1) != format!("{:?}", g.start) {
 						out.push(viol("inc_vs_oneshot", &cls, "mismatch", "game start differs".into()));
 					}
 					if GameTrait::gecko_codes(&st) != &g.gecko_codes {
